@@ -50,6 +50,8 @@ func childMain(sc string, a []string) {
 		res := st.restore(7, 100)
 		ioutil.WriteFile(path.Join(dir, "done"), []byte(res), 0644)
 		st.close()
+	case "restoreremote": // <dir> <eng> <seed>: more writes, then ProposeOp_ApplyRemoteSnap (2,7)
+		childRestoreRemote(a)
 	case "fetch": // <base> <eng>: store 1 fetches (7,100) from store 0 through PrepareSnapshot
 		p, err := openPairAt(a[0], a[1], [2]int{0, 0})
 		if err != nil {
@@ -381,7 +383,7 @@ func canonCrash(kind, eng, point, out string) string {
 			return f[0] + " " + v
 		}
 		return f[0] + " " + v
-	case "CR": // <how> open=<..> restart-restores-exactly checkpoint-unchanged
+	case "CR", "CRR": // <how> open=<..> restart-restores-exactly checkpoint-unchanged
 		if len(f) != 4 {
 			return "bad " + out
 		}
